@@ -18,6 +18,7 @@ import (
 	sdk "github.com/cosmos/cosmos-sdk/types"
 	sdkerrors "github.com/cosmos/cosmos-sdk/types/errors"
 	authtypes "github.com/cosmos/cosmos-sdk/x/auth/types"
+	banktypes "github.com/cosmos/cosmos-sdk/x/bank/types"
 )
 
 type failer interface {
@@ -88,6 +89,8 @@ type DistrRun struct {
 	injSum  sdk.Coins
 	Block   int
 	LastEvs sdk.Events
+	// Restarts counts RestartNode calls
+	Restarts int
 }
 
 func mainAddrStr() string { return ModuleAddr(distrtypes.DistributorMainAccount).String() }
@@ -404,4 +407,74 @@ func (r *DistrRun) ImplLeft() func(key, denom string) *big.Rat {
 		}
 		return new(big.Rat)
 	}
+}
+
+// RestartNode models a restart of the node process between two blocks as far as the distributor is
+// concerned: a new keeper is constructed over the same store; whatever the old one held in memory is gone.
+func (r *DistrRun) RestartNode() {
+	w := r.W
+	k := distrkeeper.NewKeeper(w.App.AppCodec(), w.App.GetKey(distrtypes.StoreKey), w.App.GetMemKey(distrtypes.MemStoreKey),
+		w.App.GetSubspace(distrtypes.ModuleName), r.Bank, w.App.AccountKeeper, GovAuthority())
+	r.K = *k
+	r.Restarts++
+}
+
+// Gov executes msgs the way x/gov executes the messages of a passed proposal: one after the other on
+// one branch of the state, which is written only if every message succeeded.  The distributor's own
+// messages are handled by the message server of the keeper that also runs this case's blocks (a node
+// has one keeper); everything else goes through the application's router.  A panic is not recovered:
+// x/gov's EndBlocker has no recover either.
+func (r *DistrRun) Gov(msgs ...sdk.Msg) (written bool, err error) {
+	branch, write := r.Ctx.CacheContext()
+	branch = branch.WithEventManager(sdk.NewEventManager())
+	srv := distrkeeper.NewMsgServerImpl(r.K)
+	for _, m := range msgs {
+		if err = m.ValidateBasic(); err != nil {
+			return false, err
+		}
+		switch mm := m.(type) {
+		case *distrtypes.MsgUpdateParams:
+			_, err = srv.UpdateParams(sdk.WrapSDKContext(branch), mm)
+		case *distrtypes.MsgUpdateSubDistributorParam:
+			_, err = srv.UpdateSubDistributorParam(sdk.WrapSDKContext(branch), mm)
+		case *distrtypes.MsgUpdateSubDistributorDestinationShareParam:
+			_, err = srv.UpdateSubDistributorDestinationShareParam(sdk.WrapSDKContext(branch), mm)
+		case *distrtypes.MsgUpdateSubDistributorBurnShareParam:
+			_, err = srv.UpdateSubDistributorBurnShareParam(sdk.WrapSDKContext(branch), mm)
+		default:
+			h := r.W.App.MsgServiceRouter().Handler(m)
+			if h == nil {
+				return false, fmt.Errorf("unroutable message %s", sdk.MsgTypeURL(m))
+			}
+			_, err = h(branch, m)
+		}
+		if err != nil {
+			return false, err
+		}
+	}
+	write()
+	return true, nil
+}
+
+// RolledBackProposal: a proposal passes the vote, its first message re-plans the configuration (every
+// named share and burn share of the first sub-distributor that has any is dropped), its second message
+// fails (the governance account cannot pay it), so x/gov throws the whole execution away.  The
+// configuration in force is what it was.  Returns whether the first message would have changed anything.
+func (r *DistrRun) RolledBackProposal(t failer, cfg DCfg) bool {
+	nc := DCfg{Subs: append([]DSub{}, cfg.Subs...)}
+	differs := false
+	for i := range nc.Subs {
+		if len(nc.Subs[i].Shares) > 0 || (nc.Subs[i].Burn != "" && nc.Subs[i].Burn != "0") {
+			nc.Subs[i].Shares = nil
+			nc.Subs[i].Burn = "0"
+			differs = true
+			break
+		}
+	}
+	failing := &banktypes.MsgSend{FromAddress: GovAuthority(), ToAddress: KeyAcc(4).Addr.String(), Amount: sdk.NewCoins(sdk.NewCoin(Denom, sdk.NewIntFromBigInt(pow10[33])))}
+	written, _ := r.Gov(&distrtypes.MsgUpdateParams{Authority: GovAuthority(), SubDistributors: nc.Build().SubDistributors}, failing)
+	if written {
+		t.Fatalf("harness: the failing message of the rolled-back proposal succeeded")
+	}
+	return differs
 }
